@@ -50,6 +50,18 @@ T_Zone ==
         /\ Nsec3ChainV(v, apex, e.exclude, e.assume, rank) = nsec3
         /\ Closed(nsec3, Low(apex))
         /\ e.n3flags = e.optflag /\ e.n3flagsmin = e.optflag /\ e.n3ttl = e.soattl
+        \* parameters (whatever route / constructor / setter order was used): every
+        \* NSEC3 RR and the NSEC3PARAM RR carry them; the NSEC3PARAM TTL follows the mode
+        /\ IsParams([salt |-> e.salt, iters |-> e.iters]) /\ e.params_ok
+        /\ e.paramttl = ParamTtl(e.ttlmode, e.soa)
+        /\ e.soattl = Min(e.soa.ttl, e.soa.min)
+        \* a record taken out again (NSEC records stripped first): the collection is
+        \* the sorted rest, the chain the chain of the rest
+        /\ LET zone3 == {r \in zone : ~(NameEq(r.n, e.removed.n) /\ r.t = e.removed.t)}
+           IN /\ ~e.rm_err /\ e.rm_found /\ zone3 # zone
+              /\ IsSortedRecs(e.recs3) /\ e.rm_len = Len(e.recs3)
+              /\ {<<Low(e.recs3[i].n), e.recs3[i].t>> : i \in 1..Len(e.recs3)} = {<<Low(r.n), r.t>> : r \in zone3}
+              /\ Sets(e.nsec_rm) = NsecChainV(View(zone3, apex), apex, e.assume)
         \* proofs
         /\ \A i \in 1..Len(e.probes) :
               LET q == e.probes[i].q  t == e.probes[i].t
